@@ -48,7 +48,7 @@ def specCheck (prop : String) (op res : List String) : String :=
     -- every leaf function reachable with attacker-controlled text (header values, paths): never a panic
     if ["pct_dec", "pct_enc", "grpc_extract", "connect_extract", "grpc_enc", "connect_enc", "path_unescape", "path_escape", "tmpl_parse", "env_dec", "env_enc", "grpc_dec", "parse_int64", "format_int", "route"].contains op then
       verdict (res != ["panic"]) "panic in a function that processes client- or backend-controlled text"
-    else if ["rest_in", "rest_http", "rest_out", "rest_out_cut", "rest_rt", "schema_req", "schema_ext", "schema_rev", "schema_rest_grpc", "config", "config_err"].contains op then
+    else if ["rest_in", "rest_http", "rest_out", "rest_out_cut", "rest_rt", "schema_req", "schema_ext", "schema_rev", "schema_mixed", "schema_rest_grpc", "config", "config_err"].contains op then
       -- whole requests (and configurations) with hostile paths, query keys and bodies: never a panic
       let r := " ".intercalate res
       verdict ((r.splitOn "panic").length == 1 && (r.splitOn "PANIC").length == 1) "panic while serving a REST request or building a configuration"
@@ -175,6 +175,9 @@ def specCheck (prop : String) (op res : List String) : String :=
   | "C20", ["schema_rev", _] =>
     verdict (" ".intercalate res == "status=200 title=true any=true")
       "a message type that only the loaded revision of a linked-in schema defines was not resolved from the loaded schema (Any lost or RPC failed): behaviour depends on what else is linked in"
+  | "C20", ["schema_mixed", _] =>
+    verdict (" ".intercalate res == "status=200 same=true ok=true")
+      "a method whose request type comes from a shared file and whose response type from the loaded file is served differently (or fails) depending on the type resolver"
   | "C20", ["schema_req", _] =>
     let r := " ".intercalate res
     if r.startsWith "DIFF" then "fail the same request has different outcomes depending on how the schema was loaded: " ++ (r.take 300).toString
